@@ -120,6 +120,16 @@ class _Walker:
             out.append(repr(o))
             return
         if t is list or t is tuple:
+            # fast path: flat sequences of primitives (data records, value-history entries) in one token
+            flat = True
+            for x in o:
+                tx = type(x)
+                if not (tx is int or tx is float or tx is str or x is None or tx is bool):
+                    flat = False
+                    break
+            if flat:
+                out.append(('L' if t is list else 'T') + repr([float(x) if type(x) is int else x for x in o]))
+                return
             out.append('[' if t is list else '(')
             walk = self.walk
             for x in o:
